@@ -1,8 +1,9 @@
 """Sidecar contracts.  PROPS maps a property id to the contract modules that carry it."""
 PROPS = {
+    "C04": ["c04_runner"],
     "C05": ["c05_outline", "c06_bracketing"],
     "C06": ["c06_bracketing"],
-    "C08": ["c08_guards", "c06_bracketing"],
+    "C08": ["c08_guards", "c06_bracketing", "c04_runner"],
     "C09": ["c09_auxes", "c11_clocks"],
     "C11": ["c11_clocks", "c06_bracketing"],
     "C21": ["c21_needs"],
